@@ -102,6 +102,9 @@ KIds == {"pub1", "pub2", "pubrel", "sub"}
 KLim == {"pub1", "pub0", "ping"}
 KLimBig == {"pub1", "big1", "long1", "ping"}
 KEnd == {"pub1", "pub2", "pubrel", "sub", "ping"}
+\* every packet type a peer can send after the handshake, whether or not the role may receive it
+KAny == {"pub0", "pub1", "pub2", "pubrel", "sub", "unsub", "ping", "connect", "connack", "pingresp", "puback", "pubrec",
+         "pubcomp", "suback", "unsuback", "disc"} \cup (IF Ver = 5 THEN {"auth", "discsei"} ELSE {})
 OErr == {"ok", "err"}
 OOk == {"ok"}
 OAll == {"ok", "err", "nack"}
